@@ -83,6 +83,10 @@ MCSeq_names == {<<RowH(HET, HOM0, HOM0), RowH(HOM1, HET, HOM0), RowH(HOM1, MISS,
 \* ploidy errors that carry no called allele at all (././. and the like) are errors like any other, wherever they stand
 NoAlleleFaults == {Row3(HET, HET, G3(Dot, Dot, Dot)), Row3(G3(Dot, Dot, Dot), HOM1, HET), Row3(MISS, [a |-> <<Dot, Dot, Dot, Dot>>, s |-> <<"/", "/", "/">>], HET)}
 MCSeq_fault2 == SeqsUpTo({Row3(HET, HOM1, HET), Row3(MISS, HOM1, HET)} \cup NoAlleleFaults, 2)
+\* records at which NO selected sample is called while an unselected one is ("private to another cohort"), next to complete ones
+PrivateRows == {Row3(MISS, MISS, HET), Row3(MULT, MISS, HOM1), Row3(HET, HOM1, HET), Row3(HOM0, HET, HOM0), Row3(MISS, MISS, MISS)}
+MCSeq_private == SeqsUpTo(PrivateRows, 3)
+ListsSubset == {<<E("s1", U), E("s10", U)>>, <<E("s10", "B"), E("s1", U)>>}
 MCSeq_nofault3 == SeqsUpTo(HistoryRows, 3)
 MCSeq_nofault2 == SeqsUpTo(HistoryRows, 2)
 
